@@ -159,7 +159,13 @@ class VLoop(asyncio.SelectorEventLoop):
         self.transports.append(tr)
         self.net.register(tr)
         self.call_soon(protocol.connection_made, tr)
-        await asyncio.sleep(0)
+        try:
+            await asyncio.sleep(0)
+        except BaseException:
+            # asyncio's create_datagram_endpoint closes the transport when its wait is
+            # cancelled or fails
+            tr.close()
+            raise
         return tr, protocol
 
 
